@@ -1,5 +1,6 @@
 import MxModel.Props.C08
 import MxModel.Props.C01
+import MxModel.Proofs.ExecFlagsRun
 /-!
 # C09 – the cached flag never changes any result
 
@@ -190,6 +191,51 @@ theorem mechanism_results_flag_independent (env : Env) (c : CellId → Bool)
   mechanism_results_flag_independent_partial env env.cached c (fun _ => none) (fun n h => absurd rfl h)
     (fun d n _ ha => by rw [hnone] at ha; cases ha) n s s' v v' hg hg' he he' hv hv'
 
+/-! ### "now or after any further edits": the same history under two initial flag assignments -/
+
+/-- **Two runs of one history that differ only in the initial assignment of the cached flag return
+the same values** (partial: regime `C02.WF` – terminating, `NoCatch`, statically scoped –;
+`NoneNeverReturned` for the definitions reached; the history makes no assignment – an uncached cells
+accepts none, so an assignment to a cells whose flag differs is not the same operation in the two
+runs).  `ops` is any admissible history of the thirteen-operation language: evaluations (returned,
+failed, stopped by the limit), clears, reference edits, formula edits, FLAG edits at any point, cells
+deleted and created, limit changes.  Both runs hold certificates for their own definitions (C02), so
+both answers are the specification's (C01, no hypothesis about the limit), the two sets of
+definitions differ in the flags only, and the two specifications coincide
+(`flags_irrelevant_between_assignments`). -/
+theorem results_flag_independent_after_history_partial (lt : Node → Node → Prop) (ho : StrictOrder lt)
+    (env0 : Env) (c : CellId → Bool) (hw0 : C02.WF env0 lt) (ops : List C02.Op)
+    (hadm : C02.Admissible lt (env0, {}) ops) (hna : ∀ op ∈ ops, C02.isAssign op = false)
+    (hnone : NoneNeverReturned (C02.run (env0, {}) ops).1 (fun _ => none)) (n : Node) (v v' : Val)
+    (hv : (evalTop (C02.run (env0, {}) ops).1 n (C02.run (env0, {}) ops).2).1 = .ok v)
+    (hv' : (evalTop (C02.run (withFlags env0 c, {}) ops).1 n (C02.run (withFlags env0 c, {}) ops).2).1 = .ok v') :
+    v = v' := by
+  have hr0 : RgNoInputs ({} : St) := fun e he => by simp at he
+  have hadm' : C02.Admissible lt (withFlags env0 c, {}) ops := C02.admissible_flags lt ops env0 c {} {} hadm
+  have hw0' : C02.WF (withFlags env0 c) lt := C02.wf_setFlags hw0 c
+  -- both runs hold certificates for their own definitions; neither has inputs
+  obtain ⟨c1, w1⟩ := C02.run_ci lt ho ops (env0, {}) hw0 (CI.empty env0 lt) hadm
+  obtain ⟨c2, w2⟩ := C02.run_ci lt ho ops (withFlags env0 c, {}) hw0' (CI.empty _ lt) hadm'
+  have i1 : inpOf (C02.run (env0, {}) ops).2 = fun _ => none := by
+    rw [C02.run_inp ho ops (env0, {}) hw0 (CI.empty env0 lt) hr0 hadm]
+    exact C02.inpRun_none ops hna env0
+  have i2 : inpOf (C02.run (withFlags env0 c, {}) ops).2 = fun _ => none := by
+    rw [C02.run_inp ho ops (withFlags env0 c, {}) hw0' (CI.empty _ lt) hr0 hadm']
+    exact C02.inpRun_none ops hna _
+  have a := (C01.eval_value_is_denotation_nocatch_partial _ _ w1.noCatch n _ c1.good).1 v hv
+  have b := (C01.eval_value_is_denotation_nocatch_partial _ _ w2.noCatch n _ c2.good).1 v' hv'
+  rw [i1] at a; rw [i2] at b
+  -- the definitions reached differ in the flags only
+  have henv : (C02.run (withFlags env0 c, {}) ops).1 =
+      withFlags (C02.run (env0, {}) ops).1 (C02.run (withFlags env0 c, {}) ops).1.cached := by
+    rw [C02.run_env, C02.run_env]
+    exact (C02.foldl_envStep_flags ops env0 c).symm
+  obtain ⟨d, hd⟩ := b
+  rw [henv, flags_irrelevant_between_assignments (C02.run (env0, {}) ops).1 _ (C02.run (env0, {}) ops).1.cached
+    (fun _ => none) (fun n h => absurd rfl h) (fun n h => absurd rfl h) hnone d n] at hd
+  have := Den_det _ _ n _ _ a ⟨d, hd⟩
+  cases this; rfl
+
 /-- **Uncached cells hold no values** (every reachable state of terminating programs). -/
 theorem uncached_holds_nothing (env : Env) (lt : Node → Node → Prop) (ho : StrictOrder lt)
     (hr : Ranked env lt) (ops : List C08.Op) (m : Node) (hc : env.cached m.1 = false) :
@@ -279,33 +325,95 @@ def qEnv : Env where
 
 def qInp : Node → Option Val := fun n => if n = (2, []) then some (.int 50) else none
 
-theorem qEnv_none_never_returned : NoneNeverReturned qEnv qInp := by
-  have h0 : ∀ d, denoteN (withFlags qEnv (fun _ => true)) qInp (d + 1) (0, []) = (.ok (.int 3), false) := by
-    intro d; rfl
-  intro d n
-  cases d with
-  | zero => intro h; cases h
-  | succ d =>
+theorem qEnv_none_never_returned (c0 : CellId → Bool) (inp : Node → Option Val) :
+    NoneNeverReturned (withFlags qEnv c0) inp := by
+  intro d
+  induction d with
+  | zero => intro n h; cases h
+  | succ d ih =>
+    intro n
     simp only [denoteN]
     split
     · intro h; cases h
     · by_cases hn : n.1 = 0
-      · have : (withFlags qEnv (fun _ => true)).formula n = .ret (.int 3) := by simp [withFlags, qEnv, hn]
+      · have : (withFlags (withFlags qEnv c0) (fun _ => true)).formula n = .ret (.int 3) := by
+          simp [withFlags, qEnv, hn]
         rw [this]; intro h; cases h
-      · have : (withFlags qEnv (fun _ => true)).formula n = .call (0, []) qK := by simp [withFlags, qEnv, hn]
+      · have : (withFlags (withFlags qEnv c0) (fun _ => true)).formula n = .call (0, []) qK := by
+          simp [withFlags, qEnv, hn]
         rw [this]
-        cases d with
-        | zero => intro h; cases h
-        | succ d =>
-          simp only [denoteBody, calleeAt, h0]
-          intro h; cases h
+        have hcal : calleeAt (withFlags (withFlags qEnv c0) (fun _ => true))
+            (denoteN (withFlags (withFlags qEnv c0) (fun _ => true)) inp d) (0, []) =
+            denoteN (withFlags (withFlags qEnv c0) (fun _ => true)) inp d (0, []) := rfl
+        simp only [denoteBody, hcal]
+        have := ih (0, [])
+        generalize (denoteN (withFlags (withFlags qEnv c0) (fun _ => true)) inp d (0, [])).1 = r at this
+        match r, this with
+        | .ok (.int i), _ => intro h; cases h
+        | .ok .none, _ => intro h; cases h
+        | .err e, hne =>
+          intro h
+          simp only [qK, denoteBody, checkNone] at h
+          exact hne h
+
+theorem qEnv_wf (c0 : CellId → Bool) : C02.WF (withFlags qEnv c0) idLt := by
+  refine ⟨?_, ?_, ?_⟩
+  · intro n
+    show CallsBelow idLt n (if n.1 = 0 then .ret (.int 3) else .call (0, []) qK)
+    split
+    · trivial
+    · rename_i hn
+      exact ⟨Nat.pos_of_ne_zero hn, fun r => by
+        match r with
+        | .ok (.int i) => trivial
+        | .ok .none => trivial
+        | .err e => trivial⟩
+  · intro n
+    show NoCatch (if n.1 = 0 then .ret (.int 3) else .call (0, []) qK)
+    split
+    · trivial
+    · exact ⟨fun e => trivial, fun r => by
+        match r with
+        | .ok (.int i) => trivial
+        | .ok .none => trivial
+        | .err e => trivial⟩
+  · intro n
+    show NameReadsIn _ (if n.1 = 0 then .ret (.int 3) else .call (0, []) qK)
+    split
+    · trivial
+    · exact fun r => by
+        match r with
+        | .ok (.int i) => trivial
+        | .ok .none => trivial
+        | .err e => trivial
 
 example (d : Nat) (n : Node) :
     denoteN (withFlags qEnv (fun c => c != 0)) qInp d n = denoteN (withFlags qEnv (fun _ => true)) qInp d n :=
   flags_irrelevant_when_none_never_returned qEnv _ qInp
-    (by intro n h; by_cases hn : n = (2, []) <;> simp_all [qInp]) qEnv_none_never_returned d n
+    (by intro n h; by_cases hn : n = (2, []) <;> simp_all [qInp]) (qEnv_none_never_returned qEnv.cached qInp) d n
 
 example : (evalTop (withFlags qEnv (fun c => c != 0)) (1, []) {}).1 = .ok (.int 4) ∧
     (evalTop (withFlags qEnv (fun _ => true)) (1, []) {}).1 = .ok (.int 4) := by decide
+
+/-! …and over a history with a flag edit in the middle: `c1()` is evaluated, `c0` is switched to
+uncached, `c1()` again – started with all cells cached, and started with `c1` uncached. -/
+def qOps : List C02.Op := [.eval (1, []), .setCached 0 false, .eval (1, [])]
+
+theorem qOps_admissible : C02.Admissible idLt (qEnv, {}) qOps :=
+  ⟨qEnv_wf qEnv.cached, qEnv_wf _, qEnv_wf _, trivial⟩
+
+example (n : Node) (v v' : Val)
+    (hv : (evalTop (C02.run (qEnv, {}) qOps).1 n (C02.run (qEnv, {}) qOps).2).1 = .ok v)
+    (hv' : (evalTop (C02.run (withFlags qEnv (fun x => x != 1), {}) qOps).1 n
+      (C02.run (withFlags qEnv (fun x => x != 1), {}) qOps).2).1 = .ok v') : v = v' :=
+  results_flag_independent_after_history_partial idLt idLt_strict qEnv _ (qEnv_wf qEnv.cached) qOps
+    qOps_admissible (by intro op h; simp [qOps] at h; rcases h with rfl | rfl | rfl <;> rfl)
+    (qEnv_none_never_returned _ _) n v v' hv hv'
+
+example : (evalTop (C02.run (qEnv, {}) qOps).1 (1, []) (C02.run (qEnv, {}) qOps).2).1 = .ok (.int 4) ∧
+    (evalTop (C02.run (withFlags qEnv (fun x => x != 1), {}) qOps).1 (1, [])
+      (C02.run (withFlags qEnv (fun x => x != 1), {}) qOps).2).1 = .ok (.int 4) ∧
+    (C02.run (qEnv, {}) qOps).2.gn = [.obj 0, .elem (1, [])] ∧
+    (C02.run (withFlags qEnv (fun x => x != 1), {}) qOps).2.gn = [] := by decide
 
 end MxModel.C09
